@@ -1,6 +1,9 @@
 mod ast;
 mod batch;
 mod c01;
+mod c08;
+mod cssgen;
+mod cssmodel;
 mod common;
 mod corpus;
 mod css;
@@ -19,12 +22,16 @@ fn main() {
     let out = arg_after(&args, "--out").unwrap_or_else(|| "/verif/.work/result.json".to_string());
     match cmd {
         "c01" => c01::explore(thorough, &out),
+        "c08" => c08::explore(c08::Prop::C08, thorough, &out),
+        "c09" => c08::explore(c08::Prop::C09, thorough, &out),
         "replay" => {
             let engine = args.get(2).expect("engine");
             let file = args.get(3).expect("file");
             let v: Value = serde_json::from_slice(&std::fs::read(file).expect("read replay")).expect("json");
             let r = match engine.as_str() {
                 "c01" => c01::replay(&v),
+                "c08" => c08::replay(c08::Prop::C08, &v),
+                "c09" => c08::replay(c08::Prop::C09, &v),
                 _ => panic!("unknown engine"),
             };
             println!("{}", r);
